@@ -435,6 +435,11 @@ func runCheck(spec *propSpec, tier string) int {
 			fmt.Printf("--- shard %d output (tail) ---\n%s\n", r.shard, tail(r.output, 12))
 			continue
 		}
+		if strings.Contains(r.output, "panic: test timed out after") {
+			// budget hit (the case in the journal is merely the one that was running): inconclusive, never a violation
+			fmt.Printf("NOTE shard %d hit its time budget (inconclusive)\n", r.shard)
+			continue
+		}
 		if jb, err := os.ReadFile(prefix + ".journal"); err == nil && len(jb) > 0 {
 			// the process died (or was killed after wedging) while executing this case
 			kind := "died"
